@@ -43,6 +43,16 @@ def scan(d: Decl, dump: str):
     # 4. items Verus does not see (Display / Error impls): their signatures (`fmt -> fmt::Result`,
     #    `source -> Option<&dyn Error>`) cannot hand out a value of the newtype, so nothing about
     #    constructor calls has to be read from their text; only `unsafe` would matter (item 5).
+    # 4b. the type and its generated error types are re-exported with exactly the declared visibility
+    top = sc.items(0, len(dump))
+    uses = [it for it in top if it.kind == 'use' and '__nutype_' in it.head]
+    bad = []
+    for it in uses:
+        m = re.match(r'^(pub(?:\([^)]*\))?)?\s*use __nutype_', it.head)
+        vis = (m.group(1) or '').strip() if m else '?'
+        if vis.replace(' ', '') != d.vis.replace(' ', ''):
+            bad.append('%s (declared `%s`)' % (it.head[:70], d.vis or 'private'))
+    out.append(('re-exports of the type / error types carry exactly the declared visibility', bool(uses) and not bad, '; '.join(bad) or ('%d re-exports' % len(uses))))
     # 5. nothing in the module is `unsafe` except new_unchecked
     n_unsafe = len(re.findall(r'\bunsafe\b', dump))
     out.append(('UNDECIDED-IF-FALSE no `unsafe` in the expansion except the sanctioned new_unchecked', n_unsafe == (1 if d.new_unchecked and fns else 0), 'occurrences: %d' % n_unsafe))
